@@ -166,6 +166,8 @@ class Rule:
             r=s.val(e['recv'])
             if r[0]=='ph': return ('ph_zero', r[1])
         if k=='Binary' and e['op']=='Eq' and s.val(e['l'])[0]=='sc' and s.val(e['r'])[0]=='sc': return ('dead',)
+        if k=='Path' and e['res'].get('k')=='Local' and e['res'].get('id') in getattr(s,'genv',{}):
+            return s.genv[e['res']['id']]          # a boolean local: the condition it was initialised with
         return ('opaque', hir.pp(e)[:50])
     # ---- walk
     def walk(s, e, guards):
@@ -175,7 +177,14 @@ class Rule:
         if not isinstance(e,dict): return
         k=e.get('k')
         if k=='Let' and e.get('init') is not None:
+            i0=strip(e['init'])
+            if i0.get('ty')=='bool' and e['pat'].get('k')=='Bind' and 'Mut' not in (e['pat'].get('mode') or '') and i0.get('k') in ('Binary','Unary','MethodCall','Path'):
+                if not hasattr(s,'genv'): s.genv={}
+                s.genv[e['pat']['id']]=s.guard(i0)
             s.bind(e['pat'], s.val(e['init'])); s.walk(e['init'],guards); return
+        if k=='If' and not e.get('else') and any(n.get('k') in ('Ret','Continue','Break') for n in hir.nodes(e['then'], into_closures=False)):
+            # an early exit: what follows is conditioned on its negation, which this walker does not track
+            s.early_exits = getattr(s,'early_exits',0)+1
         if k=='If':
             g=s.guard(e['cond'])
             s.walk(e['then'], guards+[g])
@@ -293,6 +302,7 @@ def check_rule(facts, key, dom):
     checked = 0
     doms = [dom.get(s, [None]) for s in syms]
     unknown = [p for g, k, p in r.effects if _has_unk(p)]
+    early_exits = getattr(r, 'early_exits', 0)
     for branch_bits in itertools.product([True, False], repeat=len(opaque)):
         branch = dict(zip(opaque, branch_bits))
         BR.clear()
@@ -325,7 +335,7 @@ def check_rule(facts, key, dom):
                     checked += 1
                     if SB != S0s:
                         bad.append('phases=%s present=%s parities=%s' % ({k: str(v) for k, v in conc.items()}, [s for s in syms if present[s]], [s for s in syms if beta[s]]))
-    return {'effects': len(r.effects), 'symbols': syms, 'checked': checked, 'mismatches': bad, 'opaque': len(opaque), 'unknown': len(unknown)}
+    return {'effects': len(r.effects), 'symbols': syms, 'checked': checked, 'mismatches': bad, 'opaque': len(opaque), 'unknown': len(unknown), 'early_exits': early_exits}
 
 
 def _has_unk(p):
